@@ -429,21 +429,32 @@ fn classify<'k>(known: &'k [Known], failure: &Failure) -> Option<&'k Known> {
                     })
                     .unwrap_or(false)
         }
-        "reparse-infinite-number-literal" => {
-            failure.kind == "reparse"
+        "reparse-remove-spaces-number-dot" => {
+            let chars: Vec<char> = failure.text.chars().collect();
+            let pattern = (0..chars.len()).any(|i| {
+                chars[i] == '.'
+                    && i > 0
+                    && chars[i - 1].is_ascii_digit()
+                    && chars.get(i + 1).map(|c| c.is_whitespace()).unwrap_or(false)
+                    && chars[i + 1..]
+                        .iter()
+                        .find(|c| !c.is_whitespace())
+                        .map(|c| c.is_alphabetic() || *c == '_' || *c == '.')
+                        .unwrap_or(false)
+            });
+            pattern
+                && failure.kind == "reparse"
                 && failure
                     .config
                     .as_deref()
                     .and_then(|c| serde_json::from_str::<Value>(c).ok())
-                    .map(|v| v["generator"].is_object())
-                    .unwrap_or(false)
-                && failure
-                    .text
-                    .split(|c: char| !(c.is_ascii_alphanumeric() || c == '_' || c == '.'))
-                    .any(|word| {
-                        word.starts_with(|c: char| c.is_ascii_digit() || c == '.')
-                            && word.replace('_', "").parse::<f64>().map(|v| v.is_infinite()).unwrap_or(false)
+                    .map(|v| {
+                        v["generator"].as_str().map(|g| g.starts_with("retain")).unwrap_or(false)
+                            && v["rules"].as_array().into_iter().flatten().any(|r| {
+                                r.as_str().or(r["rule"].as_str()) == Some("remove_spaces")
+                            })
                     })
+                    .unwrap_or(false)
         }
         "pipeline-on-uncovered-tree" => {
             failure.uncovered_tree && failure.config.is_some() && failure.kind != "hang" && failure.stage != "configuration"
